@@ -6,6 +6,8 @@
 //!   (borrow_arc, with_arc, with_raw_offset_arc, with_arc_mut, as_ptr, Deref), comparisons,
 //!   hashing and formatting leave it at c, also when read *inside* the borrow callback.
 //!   Payloads: Drop-tracked sized value, over-aligned (align 32) value, header+slice (len 2) for ThinArc.
+//! BOUNDS: (real_history_*) a five-step history with no preset count through each other kind's own from / clone /
+//!   release / into operations, the count read through both handles after every step.
 //! ASSUME: alloc/dealloc logging stubs; count preset through the cfg(triomphe_verif) hook.
 //! OUTSIDE: concurrent histories (C02); unwinding out of a callback (C07).
 use crate::ghost::*;
@@ -285,4 +287,44 @@ h!(r0_neutral_fmt, {
     st.alive(st.c);
     st.covers();
     forget(h);
+});
+
+
+// ---- no preset count: counts after a short real history through another kind's own operations, read through
+//      every accessor of both handles after every step
+fn counts_real_history<K: Kind<P = Dt>>() {
+    let a = Arc::new(Dt::new(0, kani::any()));
+    assert!(Arc::count(&a) == 1 && Arc::strong_count(&a) == 1);
+    let k1 = K::from_arc(a.clone());
+    assert!(Arc::count(&a) == 2 && k1.count_light() == 2, "conversion from a clone: two owners");
+    let k2 = k1.dup();
+    assert!(Arc::count(&a) == 3 && k2.count_light() == 3, "clone through the other kind: three owners");
+    k1.release();
+    assert!(Arc::count(&a) == 2 && k2.count_light() == 2, "release through the other kind: two owners");
+    let back = k2.into_arc();
+    assert!(Arc::count(&a) == 2 && Arc::count(&back) == 2, "conversion back: still two owners");
+    drop(back);
+    assert!(Arc::count(&a) == 1 && a.is_unique() && ledger_zero());
+    drop(a);
+    assert!(ledger_is(0, 1) && n_live() == 0);
+}
+h!(q_real_history_offset, counts_real_history::<OffsetArc<Dt>>());
+h!(q_real_history_union2, counts_real_history::<U2<Dt>>());
+h!(r0_real_history_union1, counts_real_history::<U1<Dt>>());
+h!(r1_real_history_raw, counts_real_history::<Raw<Dt>>());
+h!(r2_real_history_swap, counts_real_history::<Swp<Dt>>());
+h!(q_real_history_thin, {
+    let a = Arc::from_header_and_iter(HeaderWithLength::new(Dt::new(0, kani::any()), 1), (0..1).map(|_| Dt::new(1, 0)));
+    let t1 = Arc::into_thin(a.clone());
+    assert!(Arc::count(&a) == 2 && ThinArc::strong_count(&t1) == 2);
+    let t2 = t1.clone();
+    assert!(Arc::count(&a) == 3 && ThinArc::strong_count(&t2) == 3);
+    drop(t1);
+    assert!(Arc::count(&a) == 2);
+    let back = Arc::from_thin(t2);
+    assert!(Arc::count(&a) == 2 && Arc::count(&back) == 2);
+    drop(back);
+    assert!(Arc::count(&a) == 1 && ledger_zero());
+    drop(a);
+    assert!(ledger_is(0, 2) && n_live() == 0);
 });
